@@ -74,7 +74,7 @@ fn text_preview(b: &[u8]) -> String {
 /// JSON description of an input that lets `--replay` rebuild it exactly.
 fn input_json(input: &[u8], recipe: Option<&Patho>) -> Value {
     match recipe {
-        Some(p) if input.len() > 128 * 1024 => {
+        Some(p) if input.len() > 128 * 1024 || p.family == "alias-nest" => {
             json!({"recipe": {"family": p.family, "shape": p.shape, "param": p.param}, "len": input.len(), "preview": text_preview(input)})
         }
         _ => json!({"hex": genr::hex(input), "len": input.len(), "preview": text_preview(input)}),
@@ -91,6 +91,7 @@ fn rebuild_input(v: &Value) -> Option<Vec<u8>> {
     Some(match r.get("family")?.as_str()? {
         "block-nest" => genr::block_nest(shape, param),
         "flow-nest" => genr::flow_nest(shape, param),
+        "alias-nest" => genr::alias_nest(shape, param),
         "wide" => genr::wide(shape, param),
         "docs" => genr::docs(param, shape),
         "anchors" => genr::anchors(param, shape),
@@ -378,6 +379,18 @@ fn patho_list(tier: Tier) -> Vec<Patho> {
             v.push(Patho { family: "block-nest", shape, param: d, bytes: genr::block_nest(shape, d) });
         }
     }
+    // nesting depth composed through alias replay: around the limit, and far beyond it
+    for shape in genr::ALIAS_SHAPES {
+        let params: Vec<usize> = match (shape, tier) {
+            ("alias-chain", Tier::Quick) => vec![1, 15],
+            ("alias-chain", Tier::Thorough) => vec![1, 2, 4, 8, 15],
+            (_, Tier::Quick) => vec![1990, 2000, 2001, 2002, 2010, 3001, 3900],
+            (_, Tier::Thorough) => (1996..=2004).chain([1990, 2010, 2500, 3001, 3900]).collect(),
+        };
+        for d in params {
+            v.push(Patho { family: "alias-nest", shape, param: d, bytes: genr::alias_nest(shape, d) });
+        }
+    }
     for shape in genr::FLOW_SHAPES {
         for d in 250..=260 {
             v.push(Patho { family: "flow-nest", shape, param: d, bytes: genr::flow_nest(shape, d) });
@@ -449,13 +462,59 @@ fn patho_opts(p: &Patho) -> &'static [usize] {
     match p.family {
         "robotics-expr" => &[4, 0],
         "block-nest" | "flow-nest" => &[0, 3, 1],
+        "alias-nest" => &[0, 3, 2],
         _ => &[0, 3],
     }
 }
 
 /// Targets that can follow a deep nest or large document all the way down; the
 /// others are run too (they stop at the first type mismatch).
-const DEEP_TARGETS: [&str; 9] = ["Val", "json", "Ignored", "DeepMap", "DeepSeq", "EnumNest", "RcNest", "MapValVal", "OptVal"];
+const DEEP_TARGETS: [&str; 10] = ["Val", "json", "Ignored", "DeepMap", "DeepSeq", "EnumNest", "RcNest", "MapValVal", "OptVal", "MapStrDeepSeq"];
+
+// ------------------------------------------------------------------ depth composed through alias replay
+
+const ALIAS_DEPTH_SIG: &str = "C01:depth-budget-not-enforced:alias-replay";
+
+/// Oracle for the alias-nest family under a budget (option vectors 0, 2, 3): a
+/// value whose total nesting depth — reached through alias replay — is beyond
+/// the depth limit must be a Budget error exactly as the literal document of
+/// the same depth is, never Ok (an Ok there is what lets nesting grow until the
+/// stack is gone). `literal_ok(total)` runs the literal twin the same way;
+/// `None` = could not be run. Beyond depth 4000 no twin is needed: the literal
+/// limit (2000) is far behind.
+fn judge_alias_depth(
+    run: &Run,
+    mode: &str,
+    profile: &str,
+    p: &Patho,
+    t: &str,
+    e: Entry,
+    opt: usize,
+    oks: usize,
+    literal_ok: impl FnOnce(usize) -> Option<bool>,
+) {
+    if p.family != "alias-nest" || oks == 0 {
+        return;
+    }
+    let total = genr::alias_nest_total(p.shape, p.param);
+    if total <= 2000 {
+        return;
+    }
+    let twin = if total <= 4000 { literal_ok(total) } else { Some(false) };
+    match twin {
+        Some(false) => report(
+            run,
+            ALIAS_DEPTH_SIG,
+            case_json(mode, profile, t, e, opt, &p.bytes, Some(p), "alias-nest"),
+            format!(
+                "Ok for a value of total nesting depth {total} composed through alias replay ({} {}), while the literal document of the same depth is rejected: the depth limit of the budget is not applied to replayed containers",
+                p.shape, p.param
+            ),
+        ),
+        Some(true) => run.count("unspecified/alias-nest-literal-twin-also-ok", 1),
+        None => run.inconclusive("alias-nest: literal twin could not be run"),
+    }
+}
 
 // ------------------------------------------------------------------ child probes
 
@@ -497,6 +556,7 @@ fn probe_plan(pathos: &[Patho], tier: Tier, profile: &str) -> Vec<Probe> {
                     &[Entry::FromStr, Entry::ReaderC7, Entry::ReadIter, Entry::FromMultiple],
                 )
             }
+            "alias-nest" => (&["Val", "json", "Ignored", "MapStrDeepSeq"], &[Entry::FromStr, Entry::ReaderC7, Entry::ReadIter]),
             "flow-nest" => {
                 if tier == Tier::Quick && ![254, 255, 256, 257].contains(&p.param) {
                     continue;
@@ -549,7 +609,15 @@ fn run_probes(run: &Run, exe: &Path, profile: &str, pathos: &[Patho], tier: Tier
                         }
                         let e = st.deepest_returned.entry(key).or_insert(0);
                         *e = (*e).max(p.param);
+                        drop(st);
                         run.nontrivial(fnv_parts(&[b"child", profile.as_bytes(), &p.bytes, pr.target.as_bytes(), pr.entry.name().as_bytes()]));
+                        let oks = v.get("oks").and_then(|x| x.as_u64()).unwrap_or(0) as usize;
+                        judge_alias_depth(run, "child", profile, p, pr.target, pr.entry, pr.opt, oks, |total| {
+                            match child::run_case(exe, pr.entry, pr.target, pr.opt, &genr::alias_nest_literal(total), 300, 900) {
+                                Ok((_, ChildClass::Returned(w))) => Some(w.get("oks").and_then(|x| x.as_u64()).unwrap_or(0) > 0),
+                                _ => None,
+                            }
+                        });
                     }
                     ChildClass::StackOverflow => {
                         let e = st.shallowest_overflow.entry(key).or_insert(usize::MAX);
@@ -622,6 +690,29 @@ fn bisect_overflow(run: &Run, exe: &Path, profile: &str) {
 
 // ------------------------------------------------------------------ replay
 
+/// Replay of the alias-nest depth oracle (the literal twin is run in-process on a large stack).
+fn alias_replay(run: &Run, case: &Value, t: &str, entry: Entry, opt: usize, oks: usize, input: &[u8]) {
+    let r = &case["input"]["recipe"];
+    if r["family"].as_str() != Some("alias-nest") {
+        return;
+    }
+    let shape = genr::ALIAS_SHAPES.iter().copied().find(|s| Some(*s) == r["shape"].as_str()).unwrap_or("alias-even");
+    let p = Patho { family: "alias-nest", shape, param: r["param"].as_u64().unwrap_or(0) as usize, bytes: input.to_vec() };
+    let tname = t.to_string();
+    judge_alias_depth(run, "inproc", "release", &p, t, entry, opt, oks, |total| {
+        std::thread::Builder::new()
+            .stack_size(1 << 30)
+            .spawn(move || {
+                let tg = targets::by_name(&tname)?;
+                let o = oracle::exercise(&tg, entry, opt, &genr::alias_nest_literal(total));
+                if o.applicable { Some(o.oks > 0) } else { None }
+            })
+            .ok()?
+            .join()
+            .ok()?
+    });
+}
+
 fn replay(run: &'static Run, rep: &Value) -> ! {
     let case = &rep["case"];
     let input = rebuild_input(&case["input"]).unwrap_or_default();
@@ -653,6 +744,9 @@ fn replay(run: &'static Run, rep: &Value) -> ! {
                 Ok((o, c)) => {
                     println!("child: {c:?} {}", child::stderr_head(&o));
                     judge_child(run, profile, &family, &o, &c, t.name(), entry, opt, &input, None);
+                    if let ChildClass::Returned(v) = &c {
+                        alias_replay(run, case, t.name(), entry, opt, v.get("oks").and_then(|x| x.as_u64()).unwrap_or(0) as usize, &input);
+                    }
                 }
                 Err(e) => {
                     eprintln!("harness error: {e}");
@@ -678,6 +772,7 @@ fn replay(run: &'static Run, rep: &Value) -> ! {
                 .expect("worker");
             println!("in-process: oks={} errs={} kind={:?} cpu={:.3}s", out.oks, out.errs, out.first_kind, out.cpu_s);
             judge(run, &out, tn, entry, opt, &input, None, "replay");
+            alias_replay(run, case, tn, entry, opt, out.oks, &input);
         }
     }
     finish(run, Finish::new("replay"));
@@ -1026,6 +1121,7 @@ fn main() {
                     let at_limit = match p.family {
                         "block-nest" => [2000, 2001].contains(&p.param),
                         "flow-nest" => [255, 256].contains(&p.param),
+                        "alias-nest" => [2000, 2001].contains(&p.param),
                         _ => ["Mixed", "Strict", "VecString", "String", "TupU8Str", "f64"].contains(&t.name()),
                     };
                     if !at_limit {
@@ -1076,6 +1172,12 @@ fn main() {
             run.nontrivial(fnv_parts(&[b"patho", j.p.shape.as_bytes(), &j.p.param.to_le_bytes(), j.t.name().as_bytes(), j.e.name().as_bytes(), &[j.opt as u8]]));
             if j.p.shape == "complex-key" && j.t.name() == "Val" && j.e == Entry::FromStr && j.opt == 0 {
                 run.max(&format!("cpu/complex_key_nest_ms/depth_{:04}", j.p.param), (out.cpu_s * 1e3) as u64);
+            }
+            if j.opt != 1 {
+                judge_alias_depth(run, "inproc", "release", j.p, j.t.name(), j.e, j.opt, out.oks, |total| {
+                    let o = oracle::exercise(j.t, j.e, j.opt, &genr::alias_nest_literal(total));
+                    if o.applicable { Some(o.oks > 0) } else { None }
+                });
             }
             if out.oks > 0 {
                 run.max(&format!("deepest_param_ok_inproc/{}:{}", j.p.family, j.p.shape), j.p.param as u64);
